@@ -120,7 +120,7 @@ func batchOps(fn *ssa.Function) map[string]map[string][]ssa.Instruction {
 				}
 				continue
 			}
-			// a helper of the ledger package that receives the batch and writes through it
+			// a helper of the ledger package that receives the batch and writes through it (also through helpers of its own)
 			g := core.StaticCallee(call)
 			if g == nil || len(g.Blocks) == 0 || core.PkgOf(g) != ledgerPkg || g == fn {
 				continue
@@ -129,28 +129,56 @@ func batchOps(fn *ssa.Function) map[string]map[string][]ssa.Instruction {
 				if !strings.HasSuffix(a.Type().String(), "storage.Batch") || ai >= len(g.Params) {
 					continue
 				}
-				p := g.Params[ai]
-				for _, gf := range core.WithClosures(g) {
-					for _, gc := range core.Calls(gf) {
-						if !isStorageWrite(gc) {
-							continue
-						}
-						rv := core.Receiver(gc)
-						if rv == nil || !(core.Strip(rv) == ssa.Value(p) || core.VarIdentity(rv) == ssa.Value(p) || core.Mentions(rv, func(v ssa.Value) bool { return v == ssa.Value(p) })) {
-							// closures capture the parameter: accept (a load of) a free variable of the same name
-							inner := core.Strip(rv)
-							if u, ok := inner.(*ssa.UnOp); ok {
-								inner = u.X
-							}
-							if fv, ok := inner.(*ssa.FreeVar); !ok || fv.Name() != p.Name() {
-								continue
-							}
-						}
-						if k := storageKind(core.Arg(gc, 0)); k != "" {
-							batchOfSite[call] = a
-							add(k, core.CalleeObj(gc).Name(), call)
-						}
+				for _, ko := range helperBatchWrites(g, g.Params[ai], 0, map[*ssa.Function]bool{fn: true}) {
+					batchOfSite[call] = a
+					add(ko[0], ko[1], call)
+				}
+			}
+		}
+	}
+	return out
+}
+
+// helperBatchWrites lists the (kind, operation) pairs that function g performs on the storage batch it receives as
+// parameter p - in its own body, in its closures (which capture p), and in further ledger helpers it hands p to.
+func helperBatchWrites(g *ssa.Function, p *ssa.Parameter, depth int, seen map[*ssa.Function]bool) [][2]string {
+	if seen[g] || depth > 3 {
+		return nil
+	}
+	seen[g] = true
+	var out [][2]string
+	isP := func(rv ssa.Value) bool {
+		if rv == nil {
+			return false
+		}
+		if core.Strip(rv) == ssa.Value(p) || core.VarIdentity(rv) == ssa.Value(p) || core.Mentions(rv, func(v ssa.Value) bool { return v == ssa.Value(p) }) {
+			return true
+		}
+		// closures capture the parameter: accept (a load of) a free variable of the same name
+		inner := core.Strip(rv)
+		if u, ok := inner.(*ssa.UnOp); ok {
+			inner = u.X
+		}
+		fv, ok := inner.(*ssa.FreeVar)
+		return ok && fv.Name() == p.Name()
+	}
+	for _, gf := range core.WithClosures(g) {
+		for _, gc := range core.Calls(gf) {
+			if isStorageWrite(gc) {
+				if isP(core.Receiver(gc)) {
+					if k := storageKind(core.Arg(gc, 0)); k != "" {
+						out = append(out, [2]string{k, core.CalleeObj(gc).Name()})
 					}
+				}
+				continue
+			}
+			h := core.StaticCallee(gc)
+			if h == nil || len(h.Blocks) == 0 || core.PkgOf(h) != ledgerPkg {
+				continue
+			}
+			for ai, a := range gc.Common().Args {
+				if ai < len(h.Params) && strings.HasSuffix(a.Type().String(), "storage.Batch") && isP(a) {
+					out = append(out, helperBatchWrites(h, h.Params[ai], depth+1, seen)...)
 				}
 			}
 		}
